@@ -16,15 +16,21 @@ PROPS = {
     "C05": {"units": ["glue", "etag"]},
     "C06": {"units": ["glue", "streams"]},
     "C07": {"units": ["streams"]},
-    "C08": {"units": ["chunker"]},
+    "C08": {"units": ["chunker", "build"]},
     "C10": {"units": ["chunker"]},
-    "C11": {"units": ["chunker"]},
+    "C11": {"units": ["chunker", "build"]},
     "C12": {"units": ["streams", "chunker"]},
     "C13": {"units": ["glue", "range", "cond", "etag", "streams"]},
     "C14": {"units": ["glue", "cond", "etag"]},
-    "C15": {"units": ["glue"]},
+    "C15": {"units": ["glue", "build"]},
+    "C16": {"units": ["gz"]},
+    "C17": {"units": ["build", "gz", "chunker"]},
+    "C19": {"units": ["path"]},
     "C20": {"units": ["streams", "chunker"]},
 }
+
+# properties for which lib/witness.py has native oracles (used to arbitrate failures of shared invariant clauses)
+NATIVE_ORACLES = {"C01", "C02", "C03", "C04", "C05", "C06", "C07", "C08", "C10", "C11", "C12", "C13", "C14", "C15", "C20"}
 
 NOT_APPLICABLE = [
     {"property_id": "C09", "reason": "about the bytes flate2/miniz_oxide emit (valid gzip member, decodability after flush): no contract within reach can express or decide DEFLATE validity; the in-reach parts (bytes reach the encoder in order, coding headers) are covered under C08/C17"},
